@@ -17,6 +17,14 @@ CHECKS = {
          "Exploration: ownership-heavy generated programs run on inputs that steer every branch; after each call the drop-tracked host types and the per-thread allocation counter must balance.",
          "Balance is checked per call, not per statement; zero-sized clone type excluded while C03-F3 is open; harness global allocator wrapper trusted.",
          "DESIGN.md §4 C03"),
+ "C04": ("generated script signatures (exact / one-step near miss / random over the full type grammar) x a macro-built catalogue of ~250 Rust function types; structural-equality predicate as oracle; handles never called",
+         "Exploration: every generated function is requested under every catalogue type; get_function must succeed iff the descriptors are structurally equal, incl. filtermaps with accept-only / reject-only / both / neither payloads and unknown or generated names.",
+         "Rust side is a finite catalogue (sampled cross product); script side ranges over the full grammar to depth 3 and arity 7.",
+         "DESIGN.md §4 C04"),
+ "C05": ("round-trip of generated edge/random values of ~70 boundary types over six routes (identity, through a registered function and back, script-constructed from literal text, script-compared with literal text, registered constants, 7-argument position sweep, context structs)",
+         "Exploration: every value sent across the boundary must come back structurally equal (harness comparison, NaN tolerant, lists by content); script-side construction/matching of Option/Result/Verdict must agree with Rust's view.",
+         "Type catalogue is finite; payloads up to 32 bytes; context fields limited to leaf types.",
+         "DESIGN.md §4 C05"),
  "C06": ("generated source texts (random token sequences, token/character-mutated valid programs, untyped syntactically valid programs, single type-breaking edits) as single files and module trees; totality oracle in crash-isolated workers",
          "Exploration: compile() must return a package or a report for every generated text; the report must render with and without colour and every cited location must lie inside its file on char boundaries; panics, aborts and stack overflows are observed through worker isolation.",
          "Inputs <= 16 KiB and bracket depth <= 64; hangs are reported as inconclusive by a watchdog; locations come from hook verif_locations.",
